@@ -15,7 +15,7 @@ RULE = ("(i) public API: rasters up to 12x12 with random target layouts (sparse.
         "function compiles is captured (module-level ngjit wrapped) and driven over EVERY target layout of every shape with "
         "min(H,W) <= 3 and H*W <= 12 (thorough 16), target cells carrying unique ids so allocation names the chosen target; "
         "non-trivial = distinct (layout, geometry, parameters) with >= 2 targets and a non-target cell")
-BUDGET = {'quick': 150, 'thorough': 1200}
+BUDGET = {'quick': 300, 'thorough': 1200}
 MODES = {'quick': [('J', 8), ('I', 8)], 'thorough': [('J', 8), ('I', 8)]}
 FLOORS = {'quick': {'triple_names_a_real_target': 300, 'exhaustive.exact': 30000, 'never_underestimated': 300, 'max_distance.respected': 100,
                     'single_target.exact': 30, 'unbounded.no_nan': 100, 'no_target_in_reach.nan': 80, 'metric.GREAT_CIRCLE': 40,
